@@ -528,10 +528,16 @@ class MiniEval:
         if got is not None and got.kind == "value" and got.module is not None:
             pseudo = FuncInfo(got.module, "<module>", fn.node)
             return self.eval(pseudo, got.target, {}, 0)
+        if got is not None and got.kind not in ("func", "value", "class"):
+            return Sym(f"ext:{expr.id}")  # a name imported from outside the analysed universe (datetime.timedelta, ...)
         cur = fn.parent
         builtin_types = {"int": int, "str": str, "bytes": bytes, "bool": bool, "float": float, "list": list, "tuple": tuple, "dict": dict}
         if expr.id in builtin_types:
             return builtin_types[expr.id]
+        import builtins
+
+        if isinstance(getattr(builtins, expr.id, None), type) and issubclass(getattr(builtins, expr.id), BaseException):
+            return Sym(f"builtin:{expr.id}")  # calling it yields an opaque exception object that can be raised
         if cur is not None and expr.id in cur.nested:
             return FuncRef(cur.nested[expr.id])
         raise Unevaluable(f"name {expr.id}")
